@@ -65,6 +65,9 @@ def worlds(tier: str, stats: Dict[str, Any]) -> Iterator[Any]:
         stats["transitions"] += 1
         mir = [[T - i[1], T - i[0], i[2], i[3], i[4]] for i in ms][::-1]
         yield dict(mode="afile", T=T, ranks=[[list(i) for i in ms], mir], mem=True)
+    for seq in ivworlds.history_sequences():
+        stats["transitions"] += len(seq)
+        yield dict(mode="history", seq=seq)
     # (b)
     menu = b_menu_items(b)
     by_key = {}
@@ -183,6 +186,14 @@ def _rows(df, rank=None, ktype=None):
 
 
 def check(world) -> Dict[str, Any]:
+    if world["mode"] == "history":
+        viol, execs = [], 0
+        for k, m in enumerate(world["seq"]):
+            fam = [list(i) for i in ivworlds.HISTORY_FAMILY[m]]
+            r = check(dict(mode="afile", T=6, ranks=[fam, fam[::-1]], mem=True))
+            execs += r["execs"]
+            viol += [(f"history/{s}", dict(d, position_in_history=k, history=world["seq"])) for s, d in r["viol"]]
+        return dict(viol=_dedupe(viol), nontrivial=True, outcome=("history", tuple(world["seq"])), execs=execs, extra_transitions=execs - 1)
     viol: List[Any] = []
     execs = 0
     mode = world["mode"]
